@@ -36,6 +36,7 @@ type Ctx struct {
 	globals        map[*types.Var]int
 	files          []*ContractFile
 	loadErrors     []string
+	implCache      map[string][]implCand
 }
 
 func token2cmp(isMin bool) token.Token {
@@ -68,6 +69,82 @@ func (c *Ctx) typesPkg(path string) *types.Package {
 
 func (c *Ctx) contractFor(pkgPath, name string) *FuncContract {
 	return c.contracts[pkgPath+"."+name]
+}
+
+type implCand struct {
+	fn   *ssa.Function
+	recv types.Type // concrete receiver type as it appears in interface values (T or *T)
+}
+
+// implementations lists in-repo concrete types (of loaded packages) whose method set contains
+// every method of the interface, with the function for the requested method. Generic types are
+// matched by method names (their instantiations share a runtime tag in this model).
+func (c *Ctx) implementations(iface *types.Interface, method string) []implCand {
+	key := fmt.Sprintf("%p/%s", iface, method)
+	if r, ok := c.implCache[key]; ok {
+		return r
+	}
+	var out []implCand
+	var paths []string
+	for p := range c.byPath {
+		paths = append(paths, p)
+	}
+	sort.Strings(paths)
+	for _, pth := range paths {
+		pkg := c.byPath[pth]
+		scope := pkg.Types.Scope()
+		for _, name := range scope.Names() {
+			tn, ok := scope.Lookup(name).(*types.TypeName)
+			if !ok || tn.IsAlias() {
+				continue
+			}
+			named, ok := tn.Type().(*types.Named)
+			if !ok {
+				continue
+			}
+			if _, isI := named.Underlying().(*types.Interface); isI {
+				continue
+			}
+			ptrRecv := map[string]bool{}
+			have := map[string]*types.Func{}
+			for i := 0; i < named.NumMethods(); i++ {
+				m := named.Method(i)
+				have[m.Name()] = m
+				if sig, ok := m.Type().(*types.Signature); ok && sig.Recv() != nil {
+					if _, isP := sig.Recv().Type().(*types.Pointer); isP {
+						ptrRecv[m.Name()] = true
+					}
+				}
+			}
+			all := iface.NumMethods() > 0
+			anyPtr := false
+			for i := 0; i < iface.NumMethods(); i++ {
+				im := iface.Method(i)
+				hm := have[im.Name()]
+				if hm == nil || (!im.Exported() && im.Pkg() != hm.Pkg()) {
+					all = false
+					break
+				}
+				if ptrRecv[im.Name()] {
+					anyPtr = true
+				}
+			}
+			if !all {
+				continue
+			}
+			fn := c.prog.FuncValue(have[method])
+			if fn == nil {
+				continue
+			}
+			var recv types.Type = named
+			if anyPtr {
+				recv = types.NewPointer(named)
+			}
+			out = append(out, implCand{fn: fn, recv: recv})
+		}
+	}
+	c.implCache[key] = out
+	return out
 }
 
 // splitExternKey splits "path/to/pkg.(*T).M" into package path and relative name.
@@ -167,7 +244,7 @@ func Load(repo string, patterns []string) (*Ctx, error) {
 	}
 	ctx := &Ctx{repo: repo, byPath: map[string]*packages.Package{}, spkg: map[string]*ssa.Package{}, contracts: map[string]*FuncContract{},
 		ifaceContracts: map[string]*FuncContract{}, pures: map[string]*PureFunc{}, ghosts: map[string]*GhostFunc{}, ghostVars: map[string]*GhostVar{}, globalFacts: map[string][]Clause{}, opaque: map[string]bool{}, closures: map[string]*closureInfo{},
-		ranges: map[*ssa.Range]*rangeState{}, globals: map[*types.Var]int{}}
+		ranges: map[*ssa.Range]*rangeState{}, globals: map[*types.Var]int{}, implCache: map[string][]implCand{}}
 	for _, p := range pkgs {
 		for _, e := range p.Errors {
 			ctx.loadErrors = append(ctx.loadErrors, e.Error())
